@@ -14,8 +14,8 @@ def run(tier: str, seed: int):
                 + list(F.fam_faults(2, 4, max_faults=1, reqs='sinks', cofs=(True,)))
                 + list(F.fam_shapes(2, 3, batch=2, bust=(True,))) + list(F.fam_types3())
                 + list(F.fam_faults(2, 3, max_faults=1, reqs='sinks', cofs=(True,), kinds=('raise',), pre=True, bust=(True,)))
-                + list(F.fam_corrupt(2, 3)))
-        serial = (list(F.fam_shapes(1, 3, batch=1)) + list(F.fam_faults(2, 3, cofs=(True,), kinds=('raise',)))
+                + list(F.fam_corrupt(2, 3)) + list(F.fam_inherit(3)))
+        serial = (list(F.fam_inherit(3)) + list(F.fam_shapes(1, 3, batch=1)) + list(F.fam_faults(2, 3, cofs=(True,), kinds=('raise',)))
                   + list(F.fam_shapes(2, 3, batch=1, bust=(True,))) + list(F.fam_variants(2)) + list(F.fam_corrupt(2, 3)))
         rule = ('all DAG shapes n<=4 x requested subsets, every completion order (batch<=2); n<=3 placements x dup x '
                 'types x request variants x pre-cache; single faults (raise/died) n<=4; real SerialRunner slice')
@@ -24,6 +24,7 @@ def run(tier: str, seed: int):
                # several distinct never-cached dependencies of one task; failing re-executions over entries of an earlier run
                + list(F.fam_e3(list(F.fam_types3()) + list(F.fam_faults(2, 3, max_faults=1, reqs='sinks', cofs=(True,), kinds=('raise',), pre=True, bust=(True,))) + list(F.fam_corrupt(2, 3)),
                                workers=(2,), liveness=False))
+               + list(F.fam_e3(F.fam_inherit(2), workers=(2,), liveness=False))     # derived task types holding dependencies in the parameter they add
                # a result that reaches the queue just as its worker is seen dead
                + list(F.fam_e3(F.fam_shapes(2, 3, pre=False), workers=(2,), backends=('fork',))))
     else:
@@ -31,7 +32,7 @@ def run(tier: str, seed: int):
                 + list(F.fam_variants(3, batch=3))
                 + list(F.fam_faults(2, 4, max_faults=2, reqs='subsets', cofs=(True,)))
                 + list(F.fam_faults(5, 5, max_faults=1, reqs='sinks', cofs=(True,)))
-                + list(F.fam_shapes(2, 4, batch=2, bust=(True,))) + list(F.fam_types3(('TA', 'TN', 'TM')))
+                + list(F.fam_shapes(2, 4, batch=2, bust=(True,))) + list(F.fam_types3(('TA', 'TN', 'TM'))) + list(F.fam_inherit(3, batch=3, faults=True))
                 + list(F.fam_faults(2, 4, max_faults=2, reqs='sinks', cofs=(True,), kinds=('raise',), pre=True, bust=(True,))))
         serial = list(F.fam_shapes(1, 4, batch=1, bust=(False, True))) + list(F.fam_faults(2, 4, cofs=(True,), kinds=('raise',))) + list(F.fam_variants(3))
         rule = 'n<=5 shapes (batch<=2), n<=4 (batch<=3) with pre-cache; fault sets <=2 on n<=4, <=1 on n=5'
